@@ -296,6 +296,34 @@ func genTree(r *rand.Rand, t opTable, d int) *ptree {
 	return p
 }
 
+// genChain: a deep, narrow tree: n operators applied one on top of the
+// other, the previous tree as left operand, right operand or only operand.
+func genChain(r *rand.Rand, t opTable, n int) *ptree {
+	tr := genTree0(r, t, 0)
+	if len(t.decl) == 0 {
+		return tr
+	}
+	for i := 0; i < n; i++ {
+		o := t.decl[r.Intn(len(t.decl))]
+		switch o.Fix {
+		case ref.Prefix:
+			tr = &ptree{kind: "pre", op: o, kids: []*ptree{tr}}
+		case ref.Postfix:
+			tr = &ptree{kind: "post", op: o, kids: []*ptree{tr}}
+		default:
+			if r.Intn(2) == 0 {
+				tr = &ptree{kind: "bin", op: o, kids: []*ptree{tr, genTree0(r, t, 0)}}
+			} else {
+				tr = &ptree{kind: "bin", op: o, kids: []*ptree{genTree0(r, t, 0), tr}}
+			}
+		}
+		if r.Intn(9) == 0 {
+			tr = &ptree{kind: "tern", kids: []*ptree{genTree0(r, t, 0), tr, genTree0(r, t, 0)}}
+		}
+	}
+	return tr
+}
+
 func genTree0(r *rand.Rand, t opTable, d int) *ptree {
 	leaves := []string{"a", "b", "c", "1", "2.5", "\"s\"", "true", "x1", "名"}
 	if d <= 0 || r.Intn(5) == 0 {
@@ -566,6 +594,9 @@ func runC08(c *run.Ctx) {
 			}
 			c.Case(id, func() {
 				tr := genTree(r, t, 1+r.Intn(4))
+				if k%29 == 7 {
+					tr = genChain(r, t, []int{20, 33, 48, 64, 65, 100}[r.Intn(6)])
+				}
 				var lx []string
 				tr.full(&lx)
 				src, _, yt := layout(lx, seps[k%len(seps)], t)
@@ -735,7 +766,7 @@ func init() {
 		Rule: "(1) every token string of length <= 4 (quick) / <= 5 (thorough) over {a 1 prefix infixl infixr infixn postfix ( ) [ ] { } , : ? .} plus sampled longer ones, exhaustive: true for that space; " +
 			"(2) random operator tables (3-8 operators, all fixities, binding powers 0.5..14 incl. values between and equal to built-in levels, equal powers with different associativity, powers scaled x3/x10/x100, one spelling as prefix and infix; symbolic and identifier-like names) and the built-in table, random trees to depth 4 rendered fully parenthesised (law oracle: parse == tree) and with parenthesis pairs dropped one by one; " +
 			"(3) every ordered pair / triple of infix operators of each table and non-associative chains in 11+ contexts; (4) token-level mutations (malformed input, undecodable literals). " +
-			"every law tree also from its source text through the real lexer; monitors: accept/reject + tree vs an independent reference precedence parser; node-by-node source span (Idx, IdxEnd, Line, Col) vs the span of the tokens the reference consumed. distinct = distinct accepted tree per table",
+			"deep narrow trees of 20..100 stacked operators; every law tree also from its source text through the real lexer; monitors: accept/reject + tree vs an independent reference precedence parser; node-by-node source span (Idx, IdxEnd, Line, Col) vs the span of the tokens the reference consumed. distinct = distinct accepted tree per table",
 		Assume:    []string{"tokens are built by the harness with exact positions (the lexer is C09's subject)", "reference parser mirrors the documented permissiveness: trailing comma in list/map/object not in arguments, any token as member name"},
 		MinEvents: 50000, EventKey: "token_strings_parsed",
 	})
